@@ -138,7 +138,7 @@ def finish(prop, tier, seed, ev, findings, t0, errors):
             print("ANALYSIS-ERROR property=%s %s" % (prop, e))
         code = 2
     if new:
-        rp_dir = os.path.join(VERIF_ROOT, "evidence", "replay")
+        rp_dir = os.path.join(VERIF_ROOT, "evidence", "replay") if not os.environ.get("GINVERIF_NO_EVIDENCE") else os.path.join("/tmp", "ginverif_replay_%d" % os.getpid())
         os.makedirs(rp_dir, exist_ok=True)
         rp = os.path.join(rp_dir, "%s.json" % prop)
         with open(rp, "w") as fh:
@@ -162,8 +162,9 @@ def finish(prop, tier, seed, ev, findings, t0, errors):
     out = ev.to_json(wall, len(new), sorted(reported_known), new)
     if errors:
         out["coverage"]["analysis_errors"] = errors[:20]
-    with open(os.path.join(VERIF_ROOT, "evidence", "%s.json" % prop), "w") as fh:
-        json.dump(out, fh, indent=1, default=str)
+    if not os.environ.get("GINVERIF_NO_EVIDENCE"):
+        with open(os.path.join(VERIF_ROOT, "evidence", "%s.json" % prop), "w") as fh:
+            json.dump(out, fh, indent=1, default=str)
     if code == 0:
         print("OK property=%s tier=%s obligations=%d discharged=%d rule_instances=%s wall=%.1fs" % (prop, tier, ev.obligations, ev.discharged, json.dumps(ev.rule_instances, sort_keys=True), wall))
     return code
